@@ -118,9 +118,10 @@ def run(ctx):
                    rule="refinement ladders (nx, nt) -> (2 nx, ~4 nt) at t = 0.5: ideal reservoir and a constant-diffusivity table against the closed-form "
                         "Fourier series (field at the nodes and flux recovery) for p_frac/p_initial from 0.0125 to 0.99875; pressure-dependent tables against an "
                         "independent fine-grid BDF method-of-lines solution; pass = error at the coarsest rung <= C/nx and each rung <= 0.7 x the previous")
-    ctx.validated_only += ["the convergence statement itself (rates against the Fourier / method-of-lines references): numerical, on the ladders listed under "
-                           "coverage.ladders; the theorems give unconditional stability and error propagation, not the analytic truncation estimate for the "
-                           "documented problem's (discontinuous-data) solution"]
+    ctx.validated_only += ["the convergence statement for the DOCUMENTED problem (unit interval, discontinuous initial data): numerical, on the ladders listed under "
+                           "coverage.ladders against the Fourier series / an independent method-of-lines solution; the theorems give unconditional max-norm "
+                           "stability, the interior-row truncation defect M_tt dt^2/2 + a dt M_xxxx h^2/12 for smooth solutions and the accumulated-defect error "
+                           "bound, with the mirror-row defect and the O(h) grid-length mismatch as hypotheses"]
     ctx.samples += report[:3]
 
 
